@@ -1,6 +1,7 @@
 import SarpyModel.Drivers.Slice
 import SarpyModel.Drivers.Scatter
 import SarpyModel.Drivers.Poly
+import SarpyModel.Drivers.FieldFmt
 namespace Sarpy.Drivers
 
 def step (line : String) : String :=
@@ -9,6 +10,7 @@ def step (line : String) : String :=
   | "slice" :: rest => (sliceStep rest).getD "bad-op"
   | "scatter" :: rest => (scatterStep rest).getD "bad-op"
   | "poly" :: rest => (polyStep rest).getD "bad-op"
+  | "nitf" :: rest => (fieldStep rest).getD "bad-op"
   | _ => "bad-op"
 
 partial def loop (h : IO.FS.Stream) : IO Unit := do
